@@ -318,9 +318,9 @@ def assert_valid_covariance(
     covariance slightly below zero.
     """
     assert isinstance(covariance, np.ndarray)
-    assert np.allclose(covariance, covariance.T)
-
     scale = max(1.0, float(np.max(np.abs(covariance)))) if covariance.size else 1.0
+    assert np.allclose(covariance, covariance.T, atol=1e-8 * scale)
+
     covariance_eigenvalues = np.linalg.eigvalsh((covariance + covariance.T) / 2.0)
     if np.any(covariance_eigenvalues < negative_tol * scale):
         # negative definite matrix is not a valid representation of uncertainty
